@@ -1,6 +1,7 @@
 (* C01 — the interpolant reproduces the loaded model values at every loaded point.  Statements only. *)
 From TV Require Import Common.Prelude Model.IndexSets Model.GridState Model.RuleLocal Model.Selection Model.Hier Model.LocalGrid.
 From TV Require Import Model.SequenceGrid Proofs.IndexSetsProofs Proofs.GridStateProofs Proofs.HierProofs Proofs.LocalGridProofs Proofs.SequenceProofs.
+From TV Require Import Proofs.LocalComplete.
 From Coq Require Import QArith Qcanon Ring.
 Local Open Scope Z_scope.
 
@@ -40,6 +41,21 @@ Theorem c01_localpoly_certified : forall r order pts (vals : list (idx * Qc)),
   hier_cert r order pts = true ->
   forall i, In i (by_level r pts) -> evalAt r order pts vals (LocalGrid.node_of r i) = assoc vals i.
 Proof. exact localgrid_reproduces. Qed.
+
+(* Local Polynomial grids, UNBOUNDED: for every binary rule (localp, semi-localp, localp-zero, localp-boundary), EVERY order, EVERY
+   dimension and EVERY duplicate-free point set that contains the parents of its points (all grids made by makeLocalPolynomialGrid
+   and every refinement that keeps the hierarchy complete) the model of updateSurpluses + evaluate returns the supplied value at
+   every node.  No certificate, no bound: the certificate is PROVED to hold (Proofs/LocalClosure.v from the one-dimensional tree
+   facts of Proofs/LocalTree1D.v: the basis of a point is one at its node and vanishes at every node that is not a descendant). *)
+Theorem c01_localpoly_complete_unbounded : forall r order d pts (vals : list (idx * Qc)),
+  binary r -> wellformed d pts -> parent_complete r pts = true ->
+  forall i, In i pts -> evalAt r order pts vals (LocalGrid.node_of r i) = assoc vals i.
+Proof. exact localpoly_complete_reproduces. Qed.
+
+(* ... and the certificate that the runner evaluates on the implementation's grids can only fail on an incomplete hierarchy *)
+Theorem c01_certificate_complete : forall r order d pts,
+  binary r -> wellformed d pts -> parent_complete r pts = true -> hier_cert r order pts = true.
+Proof. exact localpoly_complete_cert. Qed.
 
 (* Sequence grids: for EVERY dimension, EVERY duplicate-free index set (lower or not) and EVERY sequence of pairwise
    distinct one-dimensional nodes the Newton-form interpolant equals the supplied value at every node *)
@@ -95,6 +111,8 @@ Qed.
 Print Assumptions c01_hier_reproduces.
 Print Assumptions c01_interp_at_node.
 Print Assumptions c01_localpoly_certified.
+Print Assumptions c01_localpoly_complete_unbounded.
+Print Assumptions c01_certificate_complete.
 Print Assumptions c01_sequence.
 Print Assumptions c01_values_follow_their_points.
 Print Assumptions c01_certificate_holds_on_standard_grids_bounded.
